@@ -30,7 +30,14 @@ Arguments    per C++ parameter type a small stated alphabet (quick; thorough add
                Line3 (incl. zero direction, parallel, opposite, non-unit), Plane3 (incl. zero normal, non-unit, opposite), Frustum
                (default-like, asymmetric, orthographic, near==far, left==right, far<near), Rand {seeds 0,1,42,2^31+5,0xdeadbeefcafe};
                tuple/list operands: the owner's vector alphabet as sequences, a 1-sequence and one of wrong length; object operands:
-               the kinds the binding documents (same class, int/float/double vectors, tuples, lists, numbers).
+               the kinds the binding documents (same class, int/float/double vectors, tuples, lists, numbers) AND, wherever a vector is
+               accepted through an `object` parameter or inside a tuple (M33/M44 translate/setTranslation/rotationMatrix[WithUpDir],
+               V /= obj, V(obj), equalWith*Error, Box((lo,hi)), Frustum.projectPointToScreen), an instance of EVERY registered vector
+               class of that dimension (V?s, V?i, V?i64, V?f, V?d, V?c) with conversion-separating components (VECTOR_OBJECT_COMPONENTS:
+               type extremes, int64 beyond 2^31 / 2^53 / not a float, doubles that are not floats, non-integral floats); the reference
+               converts the same object with the library's converting constructor. A class outside the binding's documented kinds may
+               be rejected by the binding (counted), but a returned result must still equal the reference.
+               module-level functions: number_alphabet + FUN_EXTREMES (denorm_min, min, 2^+-100, 2^1000 / 2^127, max, negatives), full product.
              Class-typed values are built component-wise by verifref_core._make (not by the bindings' constructors).
              <= 3 parameters: full product; more: every tuple at most 2 positions away from the default (first alphabet value of
              each position). ALIASED: every later parameter of self's class is also passed as the very same Python object as self.
@@ -485,6 +492,9 @@ def box_components(pyname, t):
          [x + 40 for x in g[:n]] + [x + 60 for x in g[:n]],     # disjoint from the generic box
          [5] + [-x for x in g[1:n]] + [-5] + g[4:3 + n],        # inverted on x only (min.x > max.x)
          [lo] * n + [hi] * n]                                   # infinite (makeInfinite)
+    if t == "long":
+        # corners beyond 2^31 and 2^53 that are not the type's extremes: Box?<other>(Box?i64) converts them component-wise
+        a.append([-(2 ** 40 + 3), -5, -2 ** 33][:n] + [2 ** 40 + 3, 2 ** 53 + 1, 2 ** 33][:n])
     if t in FLT:
         a = [[float(x) for x in v] for v in a]
     return a
@@ -494,6 +504,122 @@ EXTRA_COMPONENTS["Box2"] = box_components
 EXTRA_COMPONENTS["Box3"] = box_components
 
 _CLASS_ALPHABET = {}
+
+
+# ---- vector OBJECTS passed through a boost::python::object parameter (or inside a tuple) -------------------------------
+# A binding that takes "any vector" through an `object` parameter (M33/M44 translate / setTranslation / rotationMatrix[WithUpDir],
+# V /= obj, V(obj), equalWith*Error(obj, e), Box((lo, hi)), Frustum.projectPointToScreen) converts the operand with hand-written,
+# per-source-class code (PyImath::V2/V3/V4<T>::convert and the constructors' extract<> chains): one copy per source class.  The
+# alphabet of such a parameter therefore holds instances of EVERY vector class of that dimension the module registers, and for every
+# class values that separate "converted component-wise from the full-width source" (the library's converting constructor, which is
+# what the reference calls) from a conversion through a narrower or less precise intermediate:
+#   short / unsigned char   the extremes of the type;       int   INT_MIN, INT_MAX
+#   int64                   components beyond 2^31 (lost through an int), not representable in a float (2^24+1), beyond 2^53 (not
+#                           representable in a double), 2^63-1
+#   float                   not representable as an int (0.1f, -1/3, a subnormal), beyond the int range (3e9)
+#   double                  not representable as a float (0.1, 1+2^-40, 2^53+2, 2^-1030 which is 0 as a float)
+# Undefined inputs stay excluded by excluded(): a float/double component that does not fit an integral owner type, and a divisor
+# component that is 0 after the (implementation-defined, modular) narrowing of an integer to a smaller integral owner type.
+def _f32(x):
+    return struct.unpack("<f", struct.pack("<f", x))[0]
+
+
+VECTOR_OBJECT_COMPONENTS = collections.OrderedDict([
+    ("s", [[2, 3, 5, 7], [-32768, 32767, -11, 13]]),
+    ("c", [[2, 3, 5, 7], [255, 128, 7, 254]]),
+    ("i", [[2, 3, 5, 7], [-2 ** 31, 2 ** 31 - 1, 10007, -10009]]),
+    ("i64", [[2, 3, 5, 7], [2 ** 40 + 3, 5, -2 ** 33, 2 ** 31], [2 ** 31, -2 ** 31 - 1, 2 ** 32 + 7, -(2 ** 31 + 5)],
+             [2 ** 53 + 1, -(2 ** 62 + 3), 2 ** 24 + 1, 2 ** 63 - 1]]),
+    ("f", [[2.0, 3.0, 5.0, 7.0], [_f32(0.1), _f32(-1.0 / 3.0), 2.0 ** -130, 3.0e9], [16777216.0, -2.5, 100000.0, 7.75]]),
+    ("d", [[2.0, 3.0, 5.0, 7.0], [0.1, -1.0 / 3.0, float(2 ** 53 + 2), 2.0 ** -1030], [1.0 + 2.0 ** -40, -2.5, 123456789.0, 7.75]]),
+])
+_VECTOR_OBJECTS = {}
+
+
+def vector_objects(n):
+    """[(class suffix, object)] : every registered vector class of dimension n x its component lists above"""
+    if n not in _VECTOR_OBJECTS:
+        out = []
+        for suf, comps in VECTOR_OBJECT_COMPONENTS.items():
+            cn = "V%d%s" % (n, suf)
+            if isinstance(getattr(imath, cn, None), type):
+                out += [(suf, CORE._make(cn, c[:n])) for c in comps]
+        _VECTOR_OBJECTS[n] = out
+    return _VECTOR_OBJECTS[n]
+
+
+def vector_kind(v):
+    """class suffix ('s','i','i64','f','d','c') and dimension of an imath vector object, else None"""
+    m = re.match(r"^V([234])(s|i64|i|f|d|c)$", type(v).__name__)
+    return (m.group(2), int(m.group(1))) if m and type(v).__module__ == "imath" else None
+
+
+SUFFIX_OF = {"short": "s", "int": "i", "long": "i64", "float": "f", "double": "d", "unsigned char": "c"}
+
+
+def binding_accepts_vector_kind(g, kind, dim):
+    """Operand classes the BINDING documents for its generic-vector parameters (read off the anchored code, PyImathVec.h
+    V2/V3/V4<T>::convert and the extract<> chains of the Vec constructors / equalWith*Error): its own element type, int, float and
+    double vectors everywhere; int64 vectors where the parameter goes through V2<T>::convert / V3<T>::convert.  For any OTHER
+    registered vector class the binding may raise (it is outside the binding's domain: counted, never a violation) — but if it
+    returns, it must return what the library's converting constructor gives, like for every accepted class."""
+    own = SUFFIX_OF.get(elem_of(g.owner))
+    if kind == own or kind in ("i", "f", "d"):
+        return True
+    if kind == "i64":
+        fam = family_of(g.owner)
+        if fam in ("M33", "M44", "Frustum", "Box2", "Box3"):
+            return True
+        return fam in ("V2", "V3") and g.name in ("__idiv__", "__itruediv__")
+    return False
+
+
+def foreign_vector_operand(g, vals):
+    """suffix of a vector-object operand (top level or inside a tuple/list) of a class the binding does not document, else None"""
+    def walk(v, depth):
+        vk = vector_kind(v)
+        if vk:
+            return None if binding_accepts_vector_kind(g, vk[0], vk[1]) else vk[0]
+        if type(v) in (tuple, list) and depth < 2:
+            for e in v:
+                r = walk(e, depth + 1)
+                if r:
+                    return r
+        return None
+    start = 0 if g.kind in ("init", "function", "static") else 1
+    for v in vals[start:]:
+        r = walk(v, 0)
+        if r:
+            return r
+    return None
+
+
+def vector_operand_classes(g, k, vals):
+    """outcome classes (predicates on the INPUT) for vector objects that reach a generic `object` / tuple parameter"""
+    out = set()
+    nt = g.ovs[k]
+    own = SUFFIX_OF.get(elem_of(g.owner))
+    for pos, v in enumerate(vals):
+        if nt[pos] not in ("boost::python::api::object", "boost::python::tuple"):
+            continue
+        for e in ([v] if vector_kind(v) else (list(v) if type(v) is tuple else [])):
+            vk = vector_kind(e)
+            if not vk:
+                continue
+            out.add("object-operand:vector-of-class-V?%s" % vk[0])
+            if vk[0] != own:
+                out.add("object-operand:vector-of-another-element-type")
+            nums = flat_numbers(e)
+            if vk[0] == "i64":
+                if any(abs(x) >= 2 ** 31 for x in nums):
+                    out.add("object-operand:int64-component-beyond-int32")
+                if any(abs(x) > 2 ** 53 for x in nums):
+                    out.add("object-operand:int64-component-beyond-2^53")
+            if vk[0] == "d" and any(_f32(x) != x for x in nums):
+                out.add("object-operand:double-component-not-a-float")
+            if vk[0] in ("f", "d") and any(x != int(x) for x in nums):
+                out.add("object-operand:floating-component-not-an-integer")
+    return out
 
 
 # ---- Matrix22/33/44 -----------------------------------------------------------------------------
@@ -525,6 +651,7 @@ def matrix_param(g, k, pos, nt):
             if oc != vname:
                 vals += class_alphabet(oc)[:2]
         vals += [tuple(c) for c in vec_components(vdim, t)[:2]] + [list(vec_components(vdim, t)[1])]
+        vals += [o for _, o in vector_objects(vdim)]          # every registered vector class of that dimension, conversion-separating values
         return vals
     return None
 
@@ -567,6 +694,9 @@ def box_param(g, k, pos, nt):
         if g.kind == "init" and len(g.ovs[k]) == 1:
             va = class_alphabet("V%d%s" % (n, g.owner[4:]))
             vals += [(va[4], va[0]), (va[0], va[1]), (vals[4], vals[0]), (va[2], vals[1])]
+            # Box((lo, hi)) converts each corner like a generic vector parameter: every registered class as lo, and as hi
+            for _, o in vector_objects(n):
+                vals += [(o, va[0]), (va[1], o)]
         return vals
     return None
 
@@ -706,7 +836,7 @@ def geom_param(g, k, pos, nt):
         if g.owner.startswith("Plane3"):
             return class_alphabet("Plane3f")[:3] + class_alphabet("Plane3d")[:3]
         if g.owner.startswith("Frustum"):
-            return class_alphabet("V3f")[:4] + class_alphabet("V3d")[:2] + class_alphabet("V3i")[:2] + [(2.0, 3.0, 5.0), [7.0, 11.0, 13.0]]
+            return class_alphabet("V3f")[:4] + class_alphabet("V3d")[:2] + class_alphabet("V3i")[:2] + [(2.0, 3.0, 5.0), [7.0, 11.0, 13.0]] + [o for _, o in vector_objects(3)]
         return None
     if nt == "long":
         return [PRIMES[pos % len(PRIMES)], 0, 1, -1, -7, 10007]
@@ -731,6 +861,54 @@ def flat_numbers_frustum(f):
     name, raw = b.split(b":", 1)
     fmt = "f" if name.endswith(b"f") else "d"
     return list(struct.unpack("<6" + fmt, raw[:6 * struct.calcsize(fmt)]))
+
+
+# Module-level scalar functions (lerp, lerpfactor, clamp, cmp, cmpt, iszero, equal, abs, sign, sqrt, pow, exp, log, ...) are compared at
+# the magnitudes at which a quotient, product, sum or difference of two arguments overflows, underflows or loses its last bit — where
+# the library's guarded forms (lerpfactor: "return 0 if the quotient would overflow", ImathFun.h) differ from the plain expression:
+#   double  2^-1074 (denorm_min), 2^-1022 (min), 2^-149, 2^-126 (the float ones, as doubles), 2^100, 2^1000, max, and three negatives
+#   float   2^-149 (denorm_min), 2^-126 (min), 2^-100, 2^100, 2^127, max, and two negatives  (all exact floats: no conversion is undefined)
+# on top of number_alphabet (P, 0, 1, -1, 0.375, -7, tiny, large).  Full product (all these functions have <= 3 arguments).
+FUN_EXTREMES = {
+    "double": [2.0 ** -1074, 2.0 ** -1022, 2.0 ** -149, 2.0 ** -126, 2.0 ** 100, 2.0 ** 1000, 1.7976931348623157e308, -2.0 ** -1022, -2.0 ** 1000, -1.7976931348623157e308],
+    "float": [2.0 ** -149, 2.0 ** -126, 2.0 ** -100, 2.0 ** 100, 2.0 ** 127, 3.4028234663852886e38, -2.0 ** -126, -2.0 ** 100],
+}
+
+
+def fun_param(g, k, pos, nt):
+    if nt in FLT:
+        return number_alphabet(nt, pos) + FUN_EXTREMES[nt]
+    return None
+
+
+PARAM_HOOKS["module-functions"] = fun_param
+
+
+def fun_classes(g, k, vals):
+    """outcome classes (predicates on the INPUT) of a module-level function call"""
+    out = set()
+    nt = g.ovs[k]
+    nums = [v for v, t in zip(vals, nt) if t in FLT and type(v) is float]
+    if not nums:
+        return out
+    t = nt[[i for i, x in enumerate(nt) if x in FLT][0]]
+    tmin, tmax = (2.0 ** -126, 3.4028234663852886e38) if t == "float" else (2.0 ** -1022, 1.7976931348623157e308)
+    if any(0 < abs(x) < tmin for x in nums):
+        out.add("module-function:subnormal-argument")
+    if any(abs(x) == tmin for x in nums):
+        out.add("module-function:argument-at-smallest-normal")
+    if any(abs(x) == tmax for x in nums):
+        out.add("module-function:argument-at-max")
+    if any(abs(x) >= 2.0 ** 100 for x in nums) and any(0 < abs(x) <= 2.0 ** -100 for x in nums):
+        out.add("module-function:huge-and-tiny-arguments-together")
+    if g.name == "lerpfactor" and len(nums) == 3 and t == "double":
+        m, a, b = nums
+        d, n = b - a, m - a                        # python floats are the C doubles of the (double,double,double) overload
+        if d != 0 and abs(d) <= 1 and abs(n) >= tmax * abs(d):
+            out.add("module-function:lerpfactor-quotient-would-overflow (library returns 0)")
+        if d == 0:
+            out.add("module-function:lerpfactor-empty-span")
+    return out
 
 
 def fun_excluded(g, k, vals):
@@ -811,6 +989,8 @@ def object_values(g, k, pos):
                 oc = "V%s%s" % (m.group(2), suf)
                 if oc != owner and hasattr(imath, oc):
                     vals += class_alphabet(oc)[:3]
+        if m.group(1) == "V":
+            vals += [o for _, o in vector_objects(int(m.group(2)))]      # every registered vector class, conversion-separating values
         vals += seq_values(owner, tuple)[:4]
         if g.name in ("equalWithAbsError", "equalWithRelError"):
             return vals                           # documented operand kinds of the object form: vectors and tuples
@@ -966,6 +1146,13 @@ def to_int_like(x, et):
     return x
 
 
+def narrowed(x, et):
+    """integer -> smaller integral type: implementation-defined, modular on this platform (defined behaviour, identical in the
+    binding and in the reference) — used only to keep a divisor that BECOMES zero out of an integer division"""
+    lo, hi = INT_RANGE[et]
+    return (int(x) - lo) % (hi - lo + 1) + lo
+
+
 def excluded(g, k, vals):
     """reason why the library's behaviour is undefined for this input (such inputs are not generated), else None"""
     et = owner_elem(g)
@@ -986,7 +1173,7 @@ def excluded(g, k, vals):
             return None
         if g.name in DIV_NAMES and len(vals) > 1 and not (g.name == "__mod__" and re.match(r"^V[23]", g.owner)):
             for x in flat_numbers(vals[1]):
-                if to_int_like(x, et) == 0:
+                if to_int_like(x, et) == 0 or (type(x) is int and narrowed(x, et) == 0):
                     return "integer division by zero"
         if g.name in RDIV_NAMES:
             if any(x == 0 for x in flat_numbers(vals[0])):
@@ -1225,10 +1412,18 @@ def explore_group(g, deadline_at):
                     if ob[0] != "raise":
                         fail(site + "[binding-contract]", fmt_vals(vals, alias), "raises (%s)" % must_raise, "returned normally")
                     continue
+                foreign = foreign_vector_operand(g, vals)
+                if foreign and ob[0] == "raise" and orf[0] != "raise":
+                    # a registered vector class the binding does not document for this parameter: raising is the binding's domain
+                    # restriction, not a return value (had it returned, it would be compared with the converting constructor below)
+                    res["classes"]["object-operand:vector-class-outside-the-binding's-documented-kinds-raises"] += 1
+                    continue
                 res["compared"] += 1
                 n_ok += 1
                 if alias:
                     res["classes"]["aliased-argument"] += 1
+                for c in (fun_classes(g, k, vals) if not g.owner else vector_operand_classes(g, k, vals)):
+                    res["classes"][c] += 1
                 if orf[0] == "raise":
                     res["classes"]["raises"] += 1
                     res["exc_types"]["%s/%s" % (ob[1] if ob[0] == "raise" else "-", orf[1])] += 1
@@ -1413,6 +1608,13 @@ def main():
     t_dead = R.t0 + R.deadline
     groups = discover()
     R.declare("returns-value", "mutates-self", "raises", "aliased-argument")
+    if not os.environ.get("C20S_ONLY") and not R.replay_site:
+        R.declare(*["object-operand:vector-of-class-V?%s" % k for k in VECTOR_OBJECT_COMPONENTS])
+        R.declare("object-operand:vector-of-another-element-type", "object-operand:int64-component-beyond-int32", "object-operand:int64-component-beyond-2^53",
+                  "object-operand:double-component-not-a-float", "object-operand:floating-component-not-an-integer",
+                  "module-function:subnormal-argument", "module-function:argument-at-smallest-normal", "module-function:argument-at-max",
+                  "module-function:huge-and-tiny-arguments-together", "module-function:lerpfactor-quotient-would-overflow (library returns 0)",
+                  "module-function:lerpfactor-empty-span")
     only = os.environ.get("C20S_ONLY")
     if R.replay_site:                              # --replay-site "[scalar:]scalar-binding-differs-from-library:<Class>.<method>(...": only that name
         m = re.search(re.escape(SITE) + r"(?:(\w+)\.)?(\w+)\(", R.replay_site) or re.search(r"crash:(?:(\w+)\.)?(\w+)", R.replay_site)
